@@ -24,7 +24,17 @@ func GenerateX86(ocodes []ocode.Ocode, ctx *CodeGenContext) []byte {
 
 	log.Printf("debug: [codegen] === ocode processing start ===\n")
 	nextModeChange := 0
+	// ORG が位置つきで記録されている場合は、アドレス 0 から始めて、その位置ごとに適用する
+	nextOriginChange := 0
+	if len(ctx.OriginChanges) > 0 {
+		ctx.DollarPosition = 0
+	}
 	for i, oc := range ocodes {
+		for nextOriginChange < len(ctx.OriginChanges) && ctx.OriginChanges[nextOriginChange].Index <= i {
+			// この ocode の先頭アドレス = DollarPosition + len(machineCode) が Origin になるようにする
+			ctx.DollarPosition = ctx.OriginChanges[nextOriginChange].Origin - uint64(len(machineCode))
+			nextOriginChange++
+		}
 		// [BITS n] はそれ以降の命令にだけ効く: この ocode までに現れた切り替えを適用する
 		for nextModeChange < len(ctx.BitModeChanges) && ctx.BitModeChanges[nextModeChange].Index <= i {
 			ctx.BitMode = ctx.BitModeChanges[nextModeChange].Mode
